@@ -310,12 +310,55 @@ def success_edges(fn, bi, truth=None):
         break
     if 0 in _track_moves(fn, blocks[cur]["term"]["t"], res_local)[1] if blocks[cur]["term"]["t"] >= 0 else False:
         return [edge], "plain-return"
+    far = _far_checks(fn, res_local)
+    if far:
+        return far, "match-far"
     if is_result_ty(ty):
         # is the result ever read? (drop does not count)
         if _flows_to_return(fn, res_local):
             return [edge], "plain-return"
         return [edge], "unchecked"
     return [edge], "plain"
+
+
+def _far_checks(fn, res_local):
+    """The result is stored in a variable and tested later (`let res = f(); ...; match res {..}` / `res?`):
+    success edges of every switch on the discriminant of an alias of res_local anywhere in the function."""
+    blocks = fn["blocks"]
+    aliases = {res_local}
+    changed = True
+    while changed:
+        changed = False
+        for b in blocks:
+            if b["cleanup"]:
+                continue
+            for st in b["st"]:
+                if st["k"] == "assign" and st["rv"]["r"] == "use" and not st["dst"]["p"] and st["dst"]["l"] != 0:
+                    if local_of(st["rv"]["a"]) in aliases and st["dst"]["l"] not in aliases:
+                        aliases.add(st["dst"]["l"])
+                        changed = True
+    edges = []
+    live = live_blocks(fn)
+    for bi, b in enumerate(blocks):
+        if bi not in live or b["cleanup"]:
+            continue
+        t = b["term"]
+        if t["k"] == "switch":
+            for a in aliases:
+                sw = _switch_after(fn, bi, a, "discr")
+                if sw:
+                    sb, arms, els, _ = sw
+                    tyl = fn["locals"][a]["s"].lstrip("&").replace("mut ", "")
+                    okv = "1" if tyl.startswith("core::option::Option<") else "0"
+                    edges.append((sb, arms.get(okv, els)))
+                    break
+        elif t["k"] == "call" and any(n.endswith("ops::try_trait::Try::branch") for n in callee_names(t)):
+            if any(base_local(a) in aliases for a in t["args"]) and t["t"] >= 0:
+                sw = _switch_after(fn, t["t"], t["dst"]["l"], "discr")
+                if sw:
+                    sb, arms, els, _ = sw
+                    edges.append((sb, arms.get("0", els)))
+    return edges
 
 
 def _bool_switch(fn, start, bl):
